@@ -409,6 +409,68 @@ def long_history_case(chk, sz, szr, scratch, rng, n, nruns, extra_refs=0):
         shutil.rmtree(d, ignore_errors=True)
 
 
+def degenerate_scans(chk, sz, szr, scratch, rng, nrep):
+    """Scans that walk next to nothing (an empty repository, a selection that matches no reference, only blobs as roots, a
+    single empty commit): phases with no work at all are where goroutines that normally wait for each other do not."""
+    d = os.path.join(scratch, "degenerate")
+    os.makedirs(d)
+    try:
+        pool = G.Pool(rng)
+        repos = []
+        e = G.Model()
+        repos.append(("empty-repository", e, []))
+        m1 = G.random_model(rng, size="small", hostile_names=False, noise=False)
+        repos.append(("selection-matches-nothing", m1, ["--include=refs/heads/no-such-branch"]))
+        repos.append(("no-references-selected", m1, ["--no-branches", "--no-tags", "--no-remotes", "--exclude", "refs"]))
+        m2 = G.Model()
+        m2.refs["refs/blobs/one"] = pool.new_blob(10)
+        m2.refs["refs/tags/blobtag"] = G.Tag(pool.new_blob(20), name=b"blobtag")
+        repos.append(("only-blobs-and-tags-of-blobs", m2, []))
+        m3 = G.Model()
+        m3.refs["refs/heads/main"] = G.Commit(G.Tree([]), [], msg=b"empty\n")
+        repos.append(("one-empty-commit", m3, []))
+        m4 = G.Model()
+        bl = pool.new_blob(30)
+        m4.refs["refs/heads/main"] = G.Commit(G.Tree([G.Entry(G.FILE, b"file", bl)]), [], msg=b"c\n")
+        repos.append(("blob-root-only", m4, ["refs/heads/main:file"]))
+        repos.append(("tree-root-only", m4, ["refs/heads/main^{tree}"]))
+        logdir = os.path.join(d, "race")
+        os.makedirs(logdir)
+        for k, (name, m, extra) in enumerate(repos):
+            gitdir = G.write_model(m, os.path.join(d, "r%d" % k))
+            base = {}
+            for fa in (["--json"], ["-v"]):
+                r = R.sizer(sz, gitdir, fa + ["--no-progress"] + extra, tmpdir=d)
+                chk.count()
+                if r.rc != 0:
+                    chk.violation("C17/degenerate/run-failed/" + name, {"argv": fa + extra, "stderr": r.err[-300:].decode("utf-8", "replace")})
+                    continue
+                base[tuple(fa)] = r.out
+            for j in range(nrep):
+                fa = [["--json"], ["-v"]][j % 2]
+                if tuple(fa) not in base:
+                    continue
+                env = {"GOMAXPROCS": ["1", "2", "16", "4"][j % 4], "GORACE": "halt_on_error=0 log_path=%s/race" % logdir}
+                r = R.sizer(szr, gitdir, fa + [["--no-progress"], ["--progress"]][(j // 2) % 2] + extra, env=env, tmpdir=d)
+                chk.count()
+                chk.bump("race_build_runs")
+                if r.rc not in (0, 66):
+                    chk.violation("C17/degenerate/run-failed/" + name, {"argv": fa + extra, "rc": r.rc, "stderr": r.err[-300:].decode("utf-8", "replace")})
+                elif r.out != base[tuple(fa)]:
+                    chk.violation("C17/determinism/stdout-differs-from-reference-run/degenerate/" + name, {"argv": fa + extra})
+            chk.nontrivial(("degenerate", name))
+        seen = set()
+        for blk in race_blocks(logdir):
+            sig = race_sig(blk)
+            chk.bump("race_reports")
+            if sig not in seen:
+                seen.add(sig)
+                chk.violation("C17/data-race/" + sig, {"report": blk[:3000], "case": "degenerate scans"})
+        chk.cov["degenerate_scans"] = [n for n, _, _ in repos]
+    finally:
+        shutil.rmtree(d, ignore_errors=True)
+
+
 def run(chk, b, tier):
     sz = b.sizer()
     szr = b.sizer(race=True)
@@ -436,6 +498,7 @@ def run(chk, b, tier):
             chk.sample(r["sample"], limit=3)
             chk.nontrivial(("repo", i))
     partial_clone_case(chk, sz, scratch, random.Random("C17p|%d" % R.SEED))
+    degenerate_scans(chk, sz, szr, scratch, random.Random("C17d|%d" % R.SEED), 6 if tier == "quick" else 40)
     for n_, k_, xr in ([(30000, 12, 0), (3000, 8, 6500)] if tier == "quick" else
                        [(30000, 24, 0), (120000, 24, 0), (400000, 12, 0), (3000, 40, 6500), (500, 40, 2100), (25000, 20, 30000)]):
         long_history_case(chk, sz, szr, scratch, random.Random("C17l|%d|%d" % (R.SEED, n_)), n_, k_, extra_refs=xr)
